@@ -561,7 +561,7 @@ pub fn l_bytes_strategy(_tier: Tier) -> BoxedStrategy<LCase> {
 pub fn property() -> Property {
     Property {
         id: "C05",
-        rule: "csr: insertion histories over Csr<_,_,Directed|Undirected,u8|u16|u32|usize> starting from with_nodes(0..=11 or 34..=79): add_node, add_edge / try_add_edge (random order, duplicates, self-loops), hub fills that grow one row through 31/32/33..59 entries in generated order, out-of-range endpoints (Err / documented panic), clear_edges; after each insertion the touched rows, and regularly the whole structure (counts, strictly ascending neighbors_slice, edges_slice, out_degree, edges, contains_edge below/inside/above each row, edge_references once per edge, node weights, clone) are compared with a row-map model; non-trivial = a row with >= 32 entries that received further inserts/lookups. from_sorted_edges: sorted duplicate-free lists and lists perturbed by one swap / duplicate / decrement / left unsorted; Ok iff strictly increasing, then equal to edge-by-edge construction in reverse order. list: histories over adj::List (add_node variants, add_edge incl. parallel, Build::update_edge, weight writes through saved indices, out-of-range panics, clear) with every edge index ever returned re-validated after every step; non-trivial = a parallel edge and an update. Distinct by case fingerprint",
+        rule: "csr: insertion histories over Csr<_,_,Directed|Undirected,u8|u16|u32|usize> starting from with_nodes(0..=11 or 34..=79): add_node, add_edge / try_add_edge (random order, duplicates, self-loops), hub fills that grow one row through 31/32/33..59 entries in generated order, out-of-range endpoints (Err / documented panic), clear_edges; after each insertion the touched rows, and regularly the whole structure (counts, strictly ascending neighbors_slice, edges_slice, out_degree, edges, contains_edge below/inside/above each row, edge_references once per edge, node weights, clone) are compared with a row-map model; non-trivial = a row with >= 32 entries that received further inserts/lookups. from_sorted_edges: sorted duplicate-free lists and lists perturbed by one swap / duplicate / decrement / left unsorted; Ok iff strictly increasing, then equal to edge-by-edge construction in reverse order. list: histories over adj::List (add_node variants, add_edge incl. parallel, Build::update_edge, weight writes through saved indices, out-of-range panics, clear) with every edge index ever returned re-validated after every step; non-trivial = a parallel edge and an update. Distinct by case fingerprint; the *-from-bytes sub-checks feed the same interpreter with histories decoded from generated byte strings by the libFuzzer codec (all operation kinds equally likely, up to the thorough-tier length)",
         assumptions: &[
             "Csr::contains_edge(node_count, _) (documented to panic, returns false) and List::update_edge with an out-of-range target are not generated",
             "Csr has no index-limit checks: node counts stay below 200 for all widths",
